@@ -8,6 +8,72 @@ def V(name, prop, path, old, new, rule=None, expect="fire"):
     VARIANTS.append({"name": name, "prop": prop, "edits": [(path, old, new)], "rule": rule, "expect": expect})
 
 
+def rename_local(func: str, old: str, new: str):
+    """behaviour-preserving edit: rename a local variable inside one function - NAME tokens only (never string
+    literals, attribute names after a dot, or keyword-argument names)"""
+    import io
+    import re
+    import tokenize
+
+    def edit(src: str):
+        lines = src.split("\n")
+        start = None
+        for i, l in enumerate(lines):
+            if re.match(r"\s*(async\s+)?def\s+" + re.escape(func) + r"\b", l):
+                start = i
+                break
+        if start is None:
+            return None
+        indent = len(lines[start]) - len(lines[start].lstrip())
+        # the function ends before the next line at the same or lower indentation that is not inside brackets
+        depth, end = 0, len(lines)
+        for j in range(start, len(lines)):
+            l = lines[j]
+            if j > start and depth == 0 and l.strip() and (len(l) - len(l.lstrip())) <= indent and not l.lstrip().startswith("#"):
+                end = j
+                break
+            for ch in re.sub(r"(\"[^\"]*\"|'[^']*')", "", l):
+                if ch in "([{":
+                    depth += 1
+                elif ch in ")]}":
+                    depth -= 1
+        body = "\n".join(lines[start:end]) + "\n"
+        try:
+            toks = list(tokenize.generate_tokens(io.StringIO(body).readline))
+        except (tokenize.TokenError, IndentationError):
+            return None
+        edits = []
+        for k, t in enumerate(toks):
+            if t.type == tokenize.NAME and t.string == old:
+                prev = toks[k - 1] if k else None
+                nxt = toks[k + 1] if k + 1 < len(toks) else None
+                if prev is not None and prev.type == tokenize.OP and prev.string == ".":
+                    continue
+                if nxt is not None and nxt.type == tokenize.OP and nxt.string == "=" and prev is not None and prev.type == tokenize.OP and prev.string in ("(", ","):
+                    # keyword argument name in a call:  f(x=...)  - but a plain assignment target starts a statement
+                    continue
+                edits.append((t.start, t.end))
+        if not edits:
+            return None
+        blines = body.split("\n")
+        for (r0, c0), (r1, c1) in sorted(edits, reverse=True):
+            blines[r0 - 1] = blines[r0 - 1][:c0] + new + blines[r0 - 1][c1:]
+        out = "\n".join(lines[:start] + blines[:-1] + lines[end:])
+        try:
+            compile(out, "<twin>", "exec")
+        except SyntaxError:
+            return None
+        return out
+
+    return edit
+
+
+def T(name, props, path, func, old, new):
+    """twin: rename a local; every listed property's check must stay quiet"""
+    for p_ in props:
+        VARIANTS.append({"name": f"twin-rename-{name}-{p_}", "prop": p_, "edits": [(path, rename_local(func, old, new), None)], "rule": None, "expect": "quiet"})
+
+
 # ------------------------------------------------------------------------------- C01
 V("for-continue-to-cond", "C01", "pyteal/ast/for_.py", "            block.setNextBlock(stepStart)", "            block.setNextBlock(condStart)", "R01.3")
 V("while-break-to-cond", "C01", "pyteal/ast/while_.py", "            block.setNextBlock(end)", "            block.setNextBlock(condStart)", "R01.3")
@@ -114,3 +180,102 @@ V("wideratio-addw", "C16", "pyteal/ast/widemath.py", "                    TealOp
 V("wideratio-one-factor-highword-after", "C16", "pyteal/ast/widemath.py", "        start.setNextBlock(highword)\n        highword.setNextBlock(fac0Start)\n\n        end = fac0End", "        start.setNextBlock(fac0Start)\n        fac0End.setNextBlock(highword)\n\n        end = highword", "R16.1")
 V("wideratio-dig-0", "C16", "pyteal/ast/widemath.py", "                    TealOp(expr, Op.dig, 1),  # stack: [..., B, C, A, C]", "                    TealOp(expr, Op.dig, 0),  # stack: [..., B, C, A, C]", "R16.1")
 V("wideratio-no-assert", "C16", "pyteal/ast/widemath.py", "                TealOp(self, Op.logic_not),\n                TealOp(self, Op.assert_),  # assert quotient high word is 0", "                TealOp(self, Op.pop),", "R16.1")
+
+
+# ------------------------------------------------------------------------------- behaviour-preserving twins (local renames)
+T("sort-order", ["C01"], "pyteal/compiler/sort.py", "sortBlocks", "order", "ordered")
+T("sort-visited", ["C01"], "pyteal/compiler/sort.py", "sortBlocks", "visited", "seen")
+T("flatten-code", ["C01", "C04"], "pyteal/compiler/flatten.py", "flattenBlocks", "code", "ops_of_block")
+T("flatten-trueindex", ["C01", "C04"], "pyteal/compiler/flatten.py", "flattenBlocks", "trueIndex", "tIdx")
+T("flatten-references", ["C01", "C04"], "pyteal/compiler/flatten.py", "flattenBlocks", "references", "refcount")
+T("normalize-outgoing", ["C01", "C20"], "pyteal/ir/tealblock.py", "NormalizeBlocks", "outgoingBlock", "succ")
+T("normalize-prev", ["C01", "C20"], "pyteal/ir/tealblock.py", "NormalizeBlocks", "prev", "pred")
+T("compile-ret-expr", ["C01"], "pyteal/compiler/compiler.py", "compileSubroutine", "ret_expr", "implicit_return")
+T("compile-start", ["C01", "C20"], "pyteal/compiler/compiler.py", "compileSubroutine", "deferred_start", "dstart")
+T("impl-components", ["C04", "C12", "C15"], "pyteal/compiler/compiler.py", "_compile_impl", "components", "comps")
+T("impl-teal-code", ["C15", "C04"], "pyteal/compiler/compiler.py", "_compile_impl", "teal_code", "program_text")
+T("impl-options", ["C03", "C04", "C11", "C17"], "pyteal/compiler/compiler.py", "_compile_impl", "options", "copts")
+T("impl-start-blocks", ["C03", "C11", "C17"], "pyteal/compiler/compiler.py", "_compile_impl", "subroutine_start_blocks", "starts")
+T("spill-before", ["C02", "C05"], "pyteal/compiler/subroutines.py", "spillLocalSlotsDuringRecursion", "before", "pre_ops")
+T("spill-slots", ["C02", "C05", "C11"], "pyteal/compiler/subroutines.py", "spillLocalSlotsDuringRecursion", "slots", "spilled")
+T("spill-k", ["C02"], "pyteal/compiler/subroutines.py", "spillLocalSlotsDuringRecursion", "k", "caller_def")
+T("assign-allslots", ["C10", "C11", "C17", "C20"], "pyteal/compiler/scratchslots.py", "assignScratchSlotsToSubroutines", "allSlots", "every_slot")
+T("assign-slotids", ["C10", "C20"], "pyteal/compiler/scratchslots.py", "assignScratchSlotsToSubroutines", "slotIds", "taken")
+T("assign-errors", ["C17", "C10"], "pyteal/compiler/scratchslots.py", "assignScratchSlotsToSubroutines", "errors", "problems")
+T("optimizer-slots-to-remove", ["C03", "C05", "C18"], "pyteal/compiler/optimizer/optimizer.py", "_apply_slot_to_stack", "slots_to_remove", "dead")
+T("constants-intblock", ["C12"], "pyteal/compiler/constants.py", "createConstantBlocks", "intBlock", "int_block")
+T("constants-assembled", ["C12"], "pyteal/compiler/constants.py", "createConstantBlocks", "assembled", "out")
+T("router-method-signature", ["C08", "C09"], "pyteal/ast/router.py", "add_method_handler", "method_signature", "sig")
+T("router-meth", ["C08", "C09"], "pyteal/ast/router.py", "add_method_handler", "meth", "spec_obj")
+T("router-decode-instr", ["C09"], "pyteal/ast/router.py", "__decode_constructions_and_args", "decode_instructions", "steps")
+T("router-tuplify", ["C09"], "pyteal/ast/router.py", "__decode_constructions_and_args", "tuplify", "needs_tuple")
+T("router-approval-pairs", ["C08"], "pyteal/ast/router.py", "approval_cond", "config_oc_pairs", "pairs")
+T("methodcall-app-args", ["C14", "C19"], "pyteal/ast/itxn.py", "MethodCall", "app_args", "call_args")
+T("methodcall-arg", ["C14", "C19"], "pyteal/ast/itxn.py", "MethodCall", "arg", "given")
+T("invoke-arg-type", ["C19", "C02"], "pyteal/ast/subroutine.py", "invoke", "arg_type", "expected")
+T("evaluate-body-ops", ["C02"], "pyteal/ast/subroutine.py", "evaluate", "body_ops", "prologue")
+T("encode-tuple-heads", ["C06"], "pyteal/ast/abi/tuple.py", "_encode_tuple", "heads", "head_exprs")
+T("index-tuple-offset", ["C07"], "pyteal/ast/abi/tuple.py", "_index_tuple", "offset", "byte_off")
+T("validate-slots-current", ["C17", "C20"], "pyteal/ir/tealblock.py", "validateSlots", "currentSlotsInUse", "live")
+T("vlq-results", ["C15"], "pyteal/compiler/sourcemap.py", "_base64vlq_decode", "results", "out")
+T("tojson-mappings", ["C15"], "pyteal/compiler/sourcemap.py", "to_json", "mappings", "lines_out")
+T("assert-conds", ["C18", "C01"], "pyteal/ast/assert_.py", "__teal__", "conds", "operands")
+T("return-op", ["C02", "C01"], "pyteal/ast/return_.py", "__teal__", "op", "opcode")
+T("wideratio-combine", ["C05", "C16"], "pyteal/ast/widemath.py", "__teal__", "combine", "tail")
+T("cleaning-context", ["C10", "C11"], "pyteal/ast/router.py", "_cleaning_context", "starting_slot_id", "saved_id")
+T("frame-context", ["C11"], "pyteal/ast/subroutine.py", "_frame_pointer_context", "tmp", "saved")
+T("validate-tree-pending", ["C20"], "pyteal/ir/tealblock.py", "validateTree", "pending", "todo")
+
+# ------------------------------------------------------------------------------- more fire variants
+V("sort-end-not-last", "C01", "pyteal/compiler/sort.py", "    order.pop(endIndex)\n    order.append(end)\n", "", "R01.5")
+V("sort-no-visited-check", "C01", "pyteal/compiler/sort.py", "        if id(n) in visited:\n            continue\n", "        if id(n) in visited and len(order) > 3:\n            continue\n", "R01.5")
+V("flatten-bz-bnz-swapped", "C01", "pyteal/compiler/flatten.py", "                code.append(TealOp(root_expr, Op.bz, indexToLabel(falseIndex)))  # T2PT5", "                code.append(TealOp(root_expr, Op.bnz, indexToLabel(falseIndex)))  # T2PT5", "R01.4")
+V("normalize-start-noop", "C01", "pyteal/ir/tealblock.py", "                        start = outgoingBlock", "                        start = block", "R01.6")
+V("replace-outgoing-elif", "C20", "pyteal/ir/tealconditionalblock.py", "        if self.falseBlock is oldBlock:", "        elif self.falseBlock is oldBlock:", "R01.7")
+V("minus-uses-add", "C01", "pyteal/ast/binaryexpr.py", "    return BinaryExpr(Op.minus, TealType.uint64, TealType.uint64, left, right)", "    return BinaryExpr(Op.add, TealType.uint64, TealType.uint64, left, right)", "R01.8")
+V("lt-operands-swapped", "C01", "pyteal/ast/binaryexpr.py", "    return BinaryExpr(Op.lt, TealType.uint64, TealType.uint64, left, right)", "    return BinaryExpr(Op.lt, TealType.uint64, TealType.uint64, right, left)", "R01.1")
+V("expr-sub-reflected", "C01", "pyteal/ast/expr.py", "        return Minus(self, other)", "        return Minus(other, self)", "R01.8")
+V("implicit-return-dropped", "C01", "pyteal/compiler/compiler.py", "    if not ast.has_return():\n        if ast.type_of() == TealType.none:", "    if not ast.has_return() and False:\n        if ast.type_of() == TealType.none:", "R01.10")
+V("frame-context-no-finally", "C11", "pyteal/ast/subroutine.py", "    try:\n        yield proto\n    finally:\n        SubroutineEval._current_proto = tmp", "    yield proto\n    SubroutineEval._current_proto = tmp", "R11.3")
+V("new-global-cache", "C11", "pyteal/ast/int.py", "        super().__init__()\n\n        if type(value) is not int:", "        super().__init__()\n        Int._seen = getattr(Int, '_seen', 0) + 1\n        if type(value) is not int:", "R11.1")
+V("spill-unsorted", "C11", "pyteal/compiler/subroutines.py", "        slots = list(sorted(slot for slot in localSlots[subroutine]))", "        slots = list(localSlots[subroutine])", "R11.4")
+V("teal-stores-state", "C11", "pyteal/ast/seq.py", "        start = TealSimpleBlock([])\n        end = start\n        for arg in self.args:", "        start = TealSimpleBlock([])\n        self.last_start = start\n        end = start\n        for arg in self.args:", "R11.5")
+V("validate-slots-recursion-assert", "C20", "pyteal/compiler/flatten.py", "    teal: list[TealComponent] = []\n    root_expr = None", "    teal: list[TealComponent] = []\n    assert len(codeblocks) == len(blocks)\n    root_expr = None", "R20.1")
+V("block-structural-compare", "C20", "pyteal/compiler/optimizer/optimizer.py", "            if block is cur_block and i == pos:", "            if block == cur_block and i == pos:", "R20.3")
+V("slot-limit-ge", "C10", "pyteal/compiler/scratchslots.py", "    if len(allSlots) > NUM_SLOTS:", "    if len(allSlots) >= NUM_SLOTS:", "R10.1")
+V("slot-requested-range", "C10", "pyteal/ast/scratch.py", "            if requestedSlotId < 0 or requestedSlotId >= NUM_SLOTS:", "            if requestedSlotId < 0 or requestedSlotId > NUM_SLOTS:", "R10.2")
+V("slot-eq-by-id", "C10", "pyteal/ast/scratch.py", "    def __repr__(self):\n        return \"ScratchSlot({})\".format(self.id)", "    def __eq__(self, other):\n        return isinstance(other, ScratchSlot) and self.id == other.id\n\n    def __hash__(self):\n        return hash(self.id)\n\n    def __repr__(self):\n        return \"ScratchSlot({})\".format(self.id)", "R10.2")
+V("validate-memo-block-only", "C17", "pyteal/ir/tealblock.py", "                visitedKey = (id(block), *sortedSlots)", "                visitedKey = (id(block),)", "R17.1")
+V("validate-store-after-load", "C17", "pyteal/ir/tealblock.py", "            if op.getOp() == Op.store:\n                for slot in op.getSlots():\n                    currentSlotsInUse.add(slot)\n\n            if op.getOp() == Op.load:", "            if op.getOp() == Op.load:", None)
+V("index-tuple-dynamic-head-4", "C07", "pyteal/ast/abi/tuple.py", "        if typeBefore.is_dynamic():\n            offset += 2\n            continue", "        if typeBefore.is_dynamic():\n            offset += 4\n            continue", "R07.1")
+V("uint-decode-16-uses-32", "C07", "pyteal/ast/abi/uint.py", "    if size == 16:\n        return uint_var.store(ExtractUint16(encoded, start_index))", "    if size == 16:\n        return uint_var.store(ExtractUint32(encoded, start_index))", "R07.2")
+V("array-elem-no-prefix-skip", "C07", "pyteal/ast/abi/array_base.py", "        if arrayType.is_length_dynamic():\n            byteIndex = byteIndex + Int(Uint16TypeSpec().byte_length_static())", "        if arrayType.is_length_dynamic() and False:\n            byteIndex = byteIndex + Int(Uint16TypeSpec().byte_length_static())", "R07.3")
+V("constants-enum-value", "C12", "pyteal/compiler/constants.py", "    \"CloseOut\": 2,", "    \"CloseOut\": 3,", "R12.2")
+V("constants-byte-index-sorted", "C12", "pyteal/compiler/constants.py", "                index = blockBytes.index(byteValue)", "                index = sortedBytes.index(byteValue)", None, "quiet")
+V("constants-small-int-threshold", "C12", "pyteal/compiler/constants.py", "        if intFreqs[val] > 1 and (i < 4 or isinstance(val, str) or val >= 2**7)", "        if intFreqs[val] > 1 and (i < 4 or isinstance(val, str) or val >= 2**8)", None, "quiet")
+V("escape-no-quote-escape", "C13", "pyteal/util.py", "    s = s.replace('\"', '\\\\\"')\n\n    # Surround", "    # Surround", "R13.3")
+V("base32-lowercase-ok", "C13", "pyteal/types.py", "r\"^(?:[A-Z2-7]{8})*(?:([A-Z2-7]{2}([=]{6})?)", "r\"^(?:[A-Za-z2-7]{8})*(?:([A-Z2-7]{2}([=]{6})?)", "R13.2")
+V("int-accepts-bool", "C13", "pyteal/ast/int.py", "        if type(value) is not int:", "        if not isinstance(value, int):", "R13.2")
+V("methodcall-asset-one-based", "C14", "pyteal/ast/itxn.py", "                    case abi.AssetTypeSpec():\n                        app_args.append(\n                            Bytes(\n                                algosdk.abi.ABIType.from_string(\"uint8\").encode(\n                                    len(assets)\n                                )", "                    case abi.AssetTypeSpec():\n                        app_args.append(\n                            Bytes(\n                                algosdk.abi.ABIType.from_string(\"uint8\").encode(\n                                    len(assets) + 1\n                                )", "R14.1")
+V("methodcall-next-before", "C14", "pyteal/ast/itxn.py", "            *[Seq(ttp, InnerTxnBuilder.Next()) for ttp in txns_to_pass],", "            *[Seq(InnerTxnBuilder.Next(), ttp) for ttp in txns_to_pass],", "R14.1")
+V("vlq-sign-bit", "C15", "pyteal/compiler/sourcemap.py", "        v = (abs(v) << 1) | int(v < 0)", "        v = (abs(v) << 1) | int(v <= 0)", "R15.4")
+V("sourcemap-branch-on-frames", "C15", "pyteal/compiler/flatten.py", "        if block.isTerminal():\n            continue\n", "        if block.isTerminal() or (block._sframes_container is None and False):\n            continue\n", "R15.1")
+V("identity-check-dropped", "C15", "pyteal/compiler/compiler.py", "            _PyTealSourceMapper._validate_teal_identical(\n                teal_code_wo,\n                teal_code,\n                msg=\"FATAL ERROR. Program without sourcemaps (LEFT) differs from Program with (RIGHT)\",\n            )\n", "            pass\n", None)
+V("comment-splitlines-dropped", "C18", "pyteal/ast/comment.py", "    lines = comment.splitlines()", "    lines = [comment]", "R18.1")
+V("nonce-child-first", "C18", "pyteal/ast/nonce.py", "        self.seq = Seq([Pop(self.nonce_bytes), self.child])", "        self.seq = Seq([self.child, Pop(self.nonce_bytes)])", "R18.1")
+V("assignable-uint-any-size", "C19", "pyteal/ast/abi/util.py", "            return a.size == b.size", "            return a.size <= b.size", "R19.1")
+V("assignable-static-length-ignored", "C19", "pyteal/ast/abi/util.py", "                case StaticArrayTypeSpec(), StaticArrayTypeSpec():\n                    a, b = cast(StaticArrayTypeSpec, a), cast(StaticArrayTypeSpec, b)\n                    return a.length_static() == b.length_static()", "                case StaticArrayTypeSpec(), StaticArrayTypeSpec():\n                    return True", "R19.1")
+
+# ------------------------------------------------------------------------------- behaviour-preserving twins (restructuring)
+V("twin-for-reorder-edges", "C01", "pyteal/ast/for_.py", "        stepEnd.setNextBlock(condStart)\n        stepEnd._sframes_container = self\n        doEnd.setNextBlock(stepStart)", "        doEnd.setNextBlock(stepStart)\n        stepEnd.setNextBlock(condStart)\n        stepEnd._sframes_container = self", None, "quiet")
+V("twin-router-table-order", "C08", "pyteal/ast/router.py", "        self.method_sig_to_selector[method_signature] = method_selector\n        self.method_selector_to_sig[method_selector] = method_signature", "        self.method_selector_to_sig[method_selector] = method_signature\n        self.method_sig_to_selector[method_signature] = method_selector", None, "quiet")
+V("twin-optimizer-split-if", "C03", "pyteal/compiler/optimizer/optimizer.py", "        if type(next_op) is not TealOp or next_op.op != Op.load:\n            continue", "        if type(next_op) is not TealOp:\n            continue\n        if next_op.op != Op.load:\n            continue", None, "quiet")
+V("twin-escape-split-chain", "C13", "pyteal/util.py", "    s = s.encode(\"utf-8\").decode(\"latin-1\").encode(\"unicode-escape\").decode(\"latin-1\")", "    raw = s.encode(\"utf-8\").decode(\"latin-1\")\n    s = raw.encode(\"unicode-escape\").decode(\"latin-1\")", None, "quiet")
+V("twin-uint-encode-computed", "C06", "pyteal/ast/abi/uint.py", "    if size == 16:\n        return Suffix(Itob(uint_var), Int(6))\n    if size == 32:\n        return Suffix(Itob(uint_var), Int(4))", "    if size in (16, 32):\n        return Suffix(Itob(uint_var), Int(8 - size // 8))", None, "quiet")
+V("twin-index-tuple-augassign", "C07", "pyteal/ast/abi/tuple.py", "        if typeBefore.is_dynamic():\n            offset += 2\n            continue", "        if typeBefore.is_dynamic():\n            offset = offset + 2\n            continue", None, "quiet")
+V("twin-spill-helper-var", "C02", "pyteal/compiler/subroutines.py", "                    stackDistance = len(slots) + numArgs - 1", "                    nslots = len(slots)\n                    stackDistance = nslots + numArgs - 1", None, "quiet")
+V("twin-approval-cond-elif", "C08", "pyteal/ast/router.py", "        if all(config == CallConfig.NEVER for config, _ in config_oc_pairs):\n            return 0\n        elif all(config == CallConfig.ALL for config, _ in config_oc_pairs):\n            return 1\n        else:", "        if all(config == CallConfig.NEVER for config, _ in config_oc_pairs):\n            return 0\n        if all(config == CallConfig.ALL for config, _ in config_oc_pairs):\n            return 1\n        if True:", None, "quiet")
+V("twin-validate-slots-listcomp", "C17", "pyteal/ir/tealblock.py", "            sortedSlots = sorted(slot.id for slot in currentSlotsInUse)", "            sortedSlots = sorted([slot.id for slot in currentSlotsInUse])", None, "quiet")
+V("twin-has-return-if-explicit", "C04", "pyteal/ast/seq.py", "        if len(self.args) == 0:\n            return False\n        return self.args[-1].has_return()", "        if not self.args:\n            return False\n        last = self.args[-1]\n        return last.has_return()", None, "quiet")
+V("twin-error-message", "C20", "pyteal/compiler/scratchslots.py", "\"Too many slots in use: {}, maximum is {}\".format(len(allSlots), NUM_SLOTS)", "\"Too many scratch slots are in use: {} (maximum {})\".format(len(allSlots), NUM_SLOTS)", None, "quiet")
+V("twin-decode-enumerate-start", "C09", "pyteal/ast/router.py", "            app_arg.decode(Txn.application_args[idx + 1])\n            for idx, app_arg in enumerate(app_arg_vals)", "            app_arg.decode(Txn.application_args[idx])\n            for idx, app_arg in enumerate(app_arg_vals, start=1)", None, "quiet")
